@@ -326,30 +326,10 @@ Fixpoint prun (PP : pprogs) (ops : list pop) (p : plist) : plist * list pres :=
 (* ================================================================= part 3: pooled objects *)
 (* sync.Pool users of net/packet/packet.go as sequences of ownership events.  Objects are numbered;
    the pool hands out (Get) an object nobody holds - the documented sync.Pool contract - or a new one. *)
-Inductive pev :=
-| EGet (slot : nat)          (* x := pool.Get(): bind a local slot                                *)
-| EUse (slot : nat)          (* any read or write of the object bound to the slot (Reset, Write, Bytes, copy out) *)
-| EUse2 (a b : nat)          (* the object in slot a writes through to the object in slot b (zw.Reset(buff); zw.Write; zw.Close) *)
-| EPut (slot : nat)          (* pool.Put(x)                                                       *)
-| EReturnAlias (slot : nat). (* the function result / the caller's packet aliases the object's memory *)
-
-(* packWithoutCompression: Get; (defer Put); Reset; 3 writes; w.Write(buffer.Bytes()); Put *)
-Definition seq_pack_plain : list pev := [EGet 0; EUse 0; EUse 0; EUse 0; EUse 0; EUse 0; EPut 0].
-(* packWithCompression, branch below the threshold: Reset; 4 writes; w.Write(buff.Bytes()) *)
-Definition seq_pack_small : list pev := [EGet 0; EUse 0; EUse 0; EUse 0; EUse 0; EUse 0; EUse 0; EPut 0].
-(* packWithCompression, compressed branch: Reset; padding; DataLength; compressPacket = (Get zw; Reset(buff);
-   id; data; Close; Put zw); Len; Next; Bytes; w.Write(buff.Bytes()); Put buff *)
-Definition seq_pack_zlib : list pev :=
-  [EGet 0; EUse 0; EUse 0; EUse 0; EGet 1; EUse2 1 0; EUse2 1 0; EUse2 1 0; EUse2 1 0; EPut 1;
-   EUse 0; EUse 0; EUse 0; EUse 0; EPut 0].
-(* compressPacket failing in zw.Write: Put zw; return err; Put buff *)
-Definition seq_pack_zlib_err : list pev := [EGet 0; EUse 0; EUse 0; EUse 0; EGet 1; EUse2 1 0; EUse2 1 0; EUse2 1 0; EPut 1; EPut 0].
-(* unpackWithCompression: Get; Reset; CopyN into it; reader over buff.Bytes(): DataLength, [zlib] id,
-   io.ReadFull(r, p.Data) copies into memory owned by the packet; Put *)
-Definition seq_unpack : list pev := [EGet 0; EUse 0; EUse 0; EUse 0; EUse 0; EUse 0; EPut 0].
-Definition seq_unpack_err : list pev := [EGet 0; EUse 0; EUse 0; EPut 0].
-Definition packet_seqs : list (list pev) :=
-  [seq_pack_plain; seq_pack_small; seq_pack_zlib; seq_pack_zlib_err; seq_unpack; seq_unpack_err].
+(* the event type pev is in C20_syntax.v; the sequences are REGENERATED from net/packet on every run
+   (Gen/Queue.v: pool_packWithoutCompression, pool_packWithCompression (compressPacket inlined),
+   pool_compressPacket, pool_unpackWithCompression; pool_users lists them all) *)
+Definition packet_seqs : list (list pev) := concat pool_users.
 
 Record pthread := mkPT { todo : list (list pev);     (* calls still to make *)
                          now : list pev;             (* rest of the running call *)
@@ -423,3 +403,56 @@ Fixpoint disciplined (live : list nat) (l : list pev) : bool :=
     | EPut sl => lmem sl live && disciplined (filter (fun x => negb (Nat.eqb x sl)) live) r
     end
   end.
+
+(* ================================================================= part 4: the per-type cache of nbt/typeinfo.go *)
+(* cachedTypeFields(t), translated by gotrans into cache_prog (Gen/Queue.v):
+     if ti, ok := fieldCache.Load(t); ok { return ti }; tInfo := typeFields(t);
+     ti, _ := fieldCache.LoadOrStore(t, tInfo); return ti
+   fieldCache is a sync.Map: Load and LoadOrStore are atomic.  Types are numbered (N); typeFields is a
+   deterministic function F of the type (it only reads the immutable reflect.Type); V is the field table.
+   The machine interprets ANY list of cstmt. *)
+Section Cache.
+Variable V : Type.
+Variable F : N -> V.
+
+Inductive cpc :=
+| CIdle                                              (* between calls *)
+| CRun (k : N) (tinfo : option V) (rest : list cstmt). (* inside cachedTypeFields(k); tinfo = the local tInfo *)
+Record cthread := mkCT { ckeys : list N; cpcs : cpc; cout : list (N * V) }.
+Record cstate := mkCS { cmap : list (N * V); cthr : list cthread }.
+
+Fixpoint clookup (k : N) (m : list (N * V)) : option V :=
+  match m with [] => None | (a, v) :: r => if N.eqb a k then Some v else clookup k r end.
+
+(* one step of thread i (every step is one atomic sync.Map operation or a local computation);
+   None = the thread has nothing to do, or the program is ill-formed at this point (LoadOrStore of an
+   uncomputed tInfo, end of the body without a return) *)
+Definition cache_step (prog : list cstmt) (i : nat) (s : cstate) : option cstate :=
+  match nth_error (cthr s) i with
+  | None => None
+  | Some t =>
+    match cpcs t with
+    | CIdle =>
+        match ckeys t with
+        | [] => None
+        | k :: r => Some (mkCS (cmap s) (upd (cthr s) i (mkCT r (CRun k None prog) (cout t))))
+        end
+    | CRun _ _ [] => None
+    | CRun k ti (CSLoadReturn :: rest) =>
+        match clookup k (cmap s) with
+        | Some v => Some (mkCS (cmap s) (upd (cthr s) i (mkCT (ckeys t) CIdle (cout t ++ [(k, v)]))))
+        | None => Some (mkCS (cmap s) (upd (cthr s) i (mkCT (ckeys t) (CRun k ti rest) (cout t))))
+        end
+    | CRun k _ (CSCompute :: rest) =>
+        Some (mkCS (cmap s) (upd (cthr s) i (mkCT (ckeys t) (CRun k (Some (F k)) rest) (cout t))))
+    | CRun k None (CSLoadOrStoreReturn :: rest) => None
+    | CRun k (Some v) (CSLoadOrStoreReturn :: rest) =>
+        match clookup k (cmap s) with
+        | Some v' => Some (mkCS (cmap s) (upd (cthr s) i (mkCT (ckeys t) CIdle (cout t ++ [(k, v')]))))
+        | None => Some (mkCS ((k, v) :: cmap s) (upd (cthr s) i (mkCT (ckeys t) CIdle (cout t ++ [(k, v)]))))
+        end
+    end
+  end.
+Definition cache_init (queries : list (list N)) : cstate :=
+  mkCS [] (map (fun ks => mkCT ks CIdle []) queries).
+End Cache.
